@@ -4,7 +4,7 @@
    the bempp-cl sources on every run. *)
 From Coq Require Import Reals QArith List Arith.
 From BV Require Import Bary.Syms Bary.Model Bary.RwgModel Bary.Tables Bary.RwgReal Bary.DualModel Bary.DualProofs.
-From BV Require Import Quad.Rules Quad.Exactness Bary.Mass Bary.BcModel Bary.BcProofs Bary.DualNoOverlap.
+From BV Require Import Quad.Rules Quad.Exactness Bary.Mass Bary.BcModel Bary.BcProofs Bary.DualNoOverlap Bary.Refine.
 From BVgen Require Import BaryTables.
 Import ListNotations.
 Open Scope Q_scope.
@@ -21,6 +21,26 @@ Theorem C10_bary_subtriangles :
           (vscale (1 # 6) (cross (vsub P1 P0) (vsub P2 P0))).
 Proof. exact bary_subtriangles. Qed.
 Print Assumptions C10_bary_subtriangles.
+
+(* ... and for ALL grids (model Bary/Refine.v of the element loop of _create_barycentric_connectivity_array with its
+   edge -> midpoint memo, corresponded exactly with Grid.barycentric_refinement.elements): row j of element i carries,
+   per symbol of the generated table, the coarse vertex, THE midpoint id of that edge of the final memo (one id per
+   edge, hence shared by every element containing it) or the element's centroid id; new ids are >= nv, a centroid id
+   differs from every midpoint id and from the other centroids, distinct edges have distinct midpoint ids *)
+Theorem C10_bary_connectivity_all_grids :
+  forall (nv : nat) (els : list (list nat * list nat)) out st',
+    run els ([], nv) = (out, st') ->
+    length out = length els /\
+    (forall i V Eg cen lv rows, nth_error els i = Some (V, Eg) -> nth_error out i = Some (cen, lv, rows) ->
+       (forall j v, (j < 6)%nat -> (v < 3)%nat ->
+          nth v (nth j rows []) 0%nat = sym_id V lv cen (nth v (nth j bary_conn []) BCentre)) /\
+       (nv <= cen)%nat /\
+       (forall k, (k < 3)%nat -> lookup (nth k Eg 0%nat) (fst st') = Some (nth k lv 0%nat) /\
+                                 (nv <= nth k lv 0%nat)%nat /\ nth k lv 0%nat <> cen) /\
+       (forall i' cen' lv' rows', i' <> i -> nth_error out i' = Some (cen', lv', rows') -> cen' <> cen)) /\
+    (forall g g' id, lookup g (fst st') = Some id -> lookup g' (fst st') = Some id -> g = g').
+Proof. exact bary_connectivity_all_grids. Qed.
+Print Assumptions C10_bary_connectivity_all_grids.
 
 (* ---- P1: coeffs[a][j][v] = phi_a(vertex v of sub-triangle j), complete sweep of the regenerated table ---- *)
 Theorem C10_p1_table :
